@@ -145,6 +145,20 @@ func (i *Interface) cacheEvictHandler(keyData, _ interface{}) {
 		return
 	}
 
+	// The permission to write was checked when the record was put into the write
+	// cache. The stored record may have been marked as secret or crown jewel
+	// through another interface since then: check again, as Put() would.
+	if !i.options.HasAllPermissions() {
+		m, err := db.GetMeta(r.DatabaseKey())
+		if err == nil && !m.CheckPermission(i.options.Local, i.options.Internal) {
+			err = ErrPermissionDenied
+		}
+		if err != nil && !errors.Is(err, ErrNotFound) {
+			log.Warningf("database: not writing evicted cache entry %q to database: %s", key, err)
+			return
+		}
+	}
+
 	r.Lock()
 	defer r.Unlock()
 
